@@ -223,7 +223,7 @@ def run(ctx, chk):
         # run_frame and the private helpers it is split into
         rfam = private_family(prog, rf)
         callees = sorted(set(n for f_ in rfam if f_ in prog.fns for bb, t, names in prog.call_sites(f_) for n in names
-                             if n not in rfam and not n.startswith('<') and not n.startswith('std::cmp')))
+                             if n not in rfam and not n.startswith(('<', 'std::', 'core::', 'alloc::'))))
         allowed = {CORE + 'update', 'devices::video::VideoState::get_current_mode'}
         if set(callees) <= allowed and CORE + 'update' in callees:
             chk.ok('C09.7', 'run_frame', sample={'callees': callees})
